@@ -6,8 +6,8 @@ from .env import NULL
 KEYS1 = [NULL, 1, 2, 3]
 VALS = [NULL, 1, 2, 3]
 OPS8 = ["size", "count", "sum", "mean", "min", "max", "first", "last"]
-API_EMBS = ["f64", "f32", "i64", "i64big", "i32", "i8", "u8", "u64", "bool", "M8ns", "M8ns0", "m8ns", "M8s", "m8s", "i8lo", "i16lo", "i32lo"]
-API_EMBS_Q = ["f64", "f32", "i64big", "i32", "u8", "bool", "M8ns", "m8ns", "M8s", "i8lo", "i32lo"]
+API_EMBS = ["f64", "f32", "i64", "i64big", "u64big", "i32", "i8", "u8", "u64", "bool", "M8ns", "M8ns0", "m8ns", "M8s", "m8s", "i8lo", "i16lo", "i32lo"]
+API_EMBS_Q = ["f64", "f32", "i64big", "u64big", "i32", "u8", "bool", "M8ns", "m8ns", "M8s", "i8lo", "i32lo"]
 KENCS = ["f64", "i64", "str", "M8", "cat", "catperm", "bool"]
 NONE = {"k": "none"}
 
